@@ -126,6 +126,42 @@ def body(ctx: Ctx):
             so = m.ask("mpi_spec_ok", cores=c, oversub=o, argv=io + cmd, cmd=cmd)
             report("mpiexec_prefix", {"cores": c, "oversub": o}, io, mo, so)
 
+    # ---- 1b. the command is a function of the request alone: the same requests on a machine that offers this process ONE cpu
+    # (affinity mask as under taskset / a cgroup) and with scheduler variables in the environment
+    import contextlib
+
+    @contextlib.contextmanager
+    def narrow_machine():
+        old_aff = os.sched_getaffinity(0)
+        old_env = {k: os.environ.get(k) for k in ("SLURM_NTASKS", "SLURM_CPUS_PER_TASK", "OMP_NUM_THREADS", "OMPI_COMM_WORLD_SIZE")}
+        try:
+            os.sched_setaffinity(0, {min(old_aff)})
+            os.environ.update({"SLURM_NTASKS": "1", "SLURM_CPUS_PER_TASK": "1", "OMP_NUM_THREADS": "1", "OMPI_COMM_WORLD_SIZE": "1"})
+            yield
+        finally:
+            os.sched_setaffinity(0, old_aff)
+            for k, v in old_env.items():
+                if v is None:
+                    os.environ.pop(k, None)
+                else:
+                    os.environ[k] = v
+
+    with narrow_machine():
+        for (c, o), mo in list(zip(mcases, mo_all))[:80]:
+            io = sp.generate_mpiexec_command(cores=c, openmpi_oversubscribe=o)
+            ctx.case({"mpiexec_one_cpu": [c, o]}, nontrivial=(c != 1))
+            ctx.count("mpiexec.one_cpu_machine")
+            if io != mo:
+                so = m.ask("mpi_spec_ok", cores=c, oversub=o, argv=io + cmd, cmd=cmd)
+                report("mpiexec_prefix", {"cores": c, "oversub": o, "machine": "affinity of one cpu, scheduler variables set"}, io, mo, so)
+        for c, mo in list(zip(cases, model_out))[:120]:
+            io = sp.generate_slurm_command(cores=c["cores"], cwd=c["cwd"], threads_per_core=c["threads"], gpus_per_core=c["gpus"],
+                                           openmpi_oversubscribe=c["oversub"], slurm_cmd_args=list(c["extra"]))
+            ctx.count("srun.one_cpu_machine")
+            if io != mo:
+                so = m.ask("srun_spec_ok", argv=io + cmd, cmd=cmd, **c)
+                report("srun_prefix", dict(c, machine="affinity of one cpu, scheduler variables set"), io, mo, so)
+
     # ---- 2. through the spawner classes and interface_bootup (glue) ------------------------
     import socket
 
